@@ -25,6 +25,7 @@ func c19work(text string, key signKey, penv map[string]string, nilEnv bool) stri
 	if err != nil && !warning.Is(err) {
 		return "parse-error"
 	}
+	parseWarning := fmt.Sprint(err) // part of the result: warnings are data handed to the caller too
 	if nilEnv {
 		// no caller environment: the library supplies its own, which must be private to this call
 		if err := p.Interpolate(nil, false); err != nil {
@@ -41,7 +42,7 @@ func c19work(text string, key signKey, penv map[string]string, nilEnv bool) stri
 		return "marshal-error"
 	}
 	yb, _ := yaml.Marshal(p)
-	res := string(jb) + "|" + fmt.Sprint(len(yb))
+	res := string(jb) + "|" + fmt.Sprint(len(yb)) + "|" + parseWarning
 	if err := signature.SignSteps(context.Background(), p.Steps, key.priv, "repo", signature.WithEnv(penv)); err != nil {
 		return res + "|refused"
 	}
